@@ -170,10 +170,8 @@ func (k Keeper) ValidateValidatorFinishUnstaking(ctx sdk.Ctx, validator types.Va
 	if !validator.IsUnstaking() {
 		return types.ErrValidatorStatus(k.codespace)
 	}
-	// sanity check
-	if validator.StakedTokens.LT(sdk.NewInt(k.MinimumStake(ctx))) {
-		return types.ErrValidatorStatus(k.codespace)
-	}
+	// the stake was checked against the minimum when it was staked; a minimum raised since then must not
+	// keep the validator (whose queue entry is consumed either way) from being paid out
 	return nil
 }
 
